@@ -106,7 +106,9 @@ def value_shapes(other):
     return ["$" + other, "$$" + other, "${" + other + "}x"]
 
 
-PLAIN_VALUES = ["x", "y", "", "  padded  ", "two words", "$$", "x$$y"]
+PLAIN_VALUES = ["x", "y", "", "  padded  ", "two words", "$$", "x$$y",
+                # a '#' inside a value is a character of the value
+                "build #1", "#ff8800", "x # y", "a  #b#", "x;y // z"]
 BIG_VALUES = ["$$" * 1200, "x" + "$$y" * 1500]
 EXTRA_VALUES = ["$(%s)" % ENV_SET, "$(%s)" % ENV_UNSET, "x$", "${a", "$-",
                 "$(%s)" % ENV_DOLLAR, "x$(%s)y" % ENV_DOLLAR,
